@@ -10,6 +10,7 @@ from __future__ import annotations
 
 import ast
 
+from pv.q import text as qtext
 from pv.model import AnalysisError, walk_no_nested, params, UNKNOWN
 from pv.handlers import HandlerTable
 from pv import types as T
@@ -152,15 +153,15 @@ def rule_b(model, rep):
         rep.check(ok, R, site(UH, W + m), m, "wrapper delegates every call to the wrapped hasher (which checks the size)")
     # validate_secret itself
     fn = model.func(UH, "validate_secret")
-    cmp_ = [n for n in ast.walk(fn) if isinstance(n, ast.Compare) and "MAX_PASSWORD_SIZE" in ast.unparse(n)]
+    cmp_ = [n for n in ast.walk(fn) if isinstance(n, ast.Compare) and "MAX_PASSWORD_SIZE" in qtext(n)]
     ok = len(cmp_) == 1 and ast.unparse(cmp_[0]) == "len(secret) > MAX_PASSWORD_SIZE"
     rep.check(ok, R, site(UH, "validate_secret"), ast.unparse(cmp_[0]) if cmp_ else "<none>", "size check is `len(secret) > MAX_PASSWORD_SIZE`",
               witness="a password of exactly MAX_PASSWORD_SIZE is refused / one above is accepted")
     if cmp_:
         par = model.unit(UH).parent(cmp_[0])
-        ok = isinstance(par, ast.If) and any(isinstance(x, ast.Raise) and "PasswordSizeError" in ast.unparse(x) for x in par.body)
+        ok = isinstance(par, ast.If) and any(isinstance(x, ast.Raise) and qtext(x).loose("PasswordSizeError") for x in par.body)
         rep.check(ok, R, site(UH, "validate_secret"), "raise exc.PasswordSizeError", "oversized password raises PasswordSizeError")
-    tchk = [n for n in ast.walk(fn) if isinstance(n, ast.If) and "isinstance(secret, unicode_or_bytes)" in ast.unparse(n.test)]
+    tchk = [n for n in ast.walk(fn) if isinstance(n, ast.If) and "isinstance(secret, unicode_or_bytes)" in qtext(n.test)]
     rep.check(bool(tchk), R, site(UH, "validate_secret"), "isinstance check", "non-string secrets are refused")
     v = model.fold(model.unit("passlib.utils"), ast.Name(id="MAX_PASSWORD_SIZE"))
     rep.hold(R, site("passlib.utils", "MAX_PASSWORD_SIZE"), f"value expression folds to {v}")
@@ -250,7 +251,7 @@ def rule_c(model, rep):
 
 
 def _is_normaliser(st, sec):
-    t = ast.unparse(st)
+    t = qtext(st)
     return (isinstance(st, ast.If) and t.startswith(f"if isinstance({sec}, str):") and f"{sec} = {sec}.encode(" in t) or \
            (isinstance(st, ast.Assign) and t.startswith(f"{sec} = to_bytes({sec}"))
 
@@ -276,13 +277,13 @@ def rule_de(model, rep):
     rep.minimum(R, 4)
     # _check_truncate_policy shape
     fn = model.func(UH, "TruncateMixin._check_truncate_policy")
-    cmp_ = [n for n in ast.walk(fn) if isinstance(n, ast.Compare) and "truncate_size" in ast.unparse(n) and "len(" in ast.unparse(n)]
+    cmp_ = [n for n in ast.walk(fn) if isinstance(n, ast.Compare) and qtext(n).loose("truncate_size") and qtext(n).loose("len(")]
     ok = len(cmp_) == 1 and ast.unparse(cmp_[0]) == "len(secret) > cls.truncate_size"
     rep.check(ok, R, site(UH, "TruncateMixin._check_truncate_policy"), ast.unparse(cmp_[0]) if cmp_ else "<none>",
               "raise iff len(secret) > truncate_size (a password of exactly the limit is fine)",
               witness="a password of exactly truncate_size bytes is refused, or limit+1 accepted")
     iff = [n for n in ast.walk(fn) if isinstance(n, ast.If) and cmp_ and any(x is cmp_[0] for x in ast.walk(n.test))]
-    ok = bool(iff) and "cls.truncate_error and" in ast.unparse(iff[0].test) and any("PasswordTruncateError" in ast.unparse(x) for x in iff[0].body)
+    ok = bool(iff) and ast.unparse(iff[0].test) == "cls.truncate_error and len(secret) > cls.truncate_size" and any(qtext(x).loose("PasswordTruncateError") for x in iff[0].body)
     rep.check(ok, R, site(UH, "TruncateMixin._check_truncate_policy"), ast.unparse(iff[0].test) if iff else "<none>",
               "guarded by cls.truncate_error; raises PasswordTruncateError")
     # E: declared limits vs. consumed bytes
@@ -303,16 +304,16 @@ def rule_de(model, rep):
         rep.check(v is None, R2, site(h.unit, name + ".truncate_size"), f"truncate_size = {v!r}", "pre-hashed bcrypt variants do not truncate")
     # consumed bytes: des key helper uses 8 bytes, lmhash pads to 14, crypt16 second block [8:16]
     fn = model.func("passlib.handlers.des_crypt", "_crypt_secret_to_key")
-    txt = ast.unparse(fn)
+    txt = qtext(fn)
     rep.check("enumerate(secret[:8])" in txt or "zip(range(8), secret)" in txt, R2, site("passlib.handlers.des_crypt", "_crypt_secret_to_key"),
               "enumerate(secret[:8])", "des key is built from the first 8 bytes",
               witness="des_crypt consumes another number of bytes than its declared truncate_size")
     fn = model.func("passlib.handlers.windows", "lmhash.raw")
-    txt = ast.unparse(fn)
+    txt = qtext(fn)
     rep.check("right_pad_string(secret, 14)" in txt and "secret[0:7]" in txt and "secret[7:14]" in txt, R2, site("passlib.handlers.windows", "lmhash.raw"),
               "pad to 14; halves [0:7] [7:14]", "lmhash consumes exactly 14 bytes in two 7-byte halves")
     fn = model.func("passlib.handlers.des_crypt", "crypt16._calc_checksum")
-    rep.check("_crypt_secret_to_key(secret[8:16])" in ast.unparse(fn), R2, site("passlib.handlers.des_crypt", "crypt16._calc_checksum"),
+    rep.check("_crypt_secret_to_key(secret[8:16])" in qtext(fn), R2, site("passlib.handlers.des_crypt", "crypt16._calc_checksum"),
               "secret[8:16]", "crypt16 second block is bytes 8..15")
     # cisco: over-long passwords at verify time are spoiled, at hash time refused
     fn = model.func("passlib.handlers.cisco", "cisco_pix._calc_checksum")
